@@ -40,4 +40,10 @@ for prop, ents in todo.items():
 for f in os.listdir('known_replays'):
     if f.endswith('.auto.json'):
         os.unlink(os.path.join('known_replays', f))
-json.dump(k, open('known_findings.json', 'w'), indent=1)
+# merge: only the replay paths, into the file as it is NOW (it may have been edited meanwhile)
+cur = json.load(open('known_findings.json'))
+paths = {e['id']: e.get('first_replay') for e in k['findings']}
+for e in cur['findings']:
+    if paths.get(e['id']) and e['status'] == 'known':
+        e['first_replay'] = paths[e['id']]
+json.dump(cur, open('known_findings.json', 'w'), indent=1)
